@@ -259,3 +259,9 @@ def run(ctx) -> None:
 
     ctx.hyp("v3", cases(3), lambda c: _run_one(ctx, c), ctx.n(2800, 300000))
     ctx.hyp("v2", cases(2), lambda c: _run_one(ctx, c), ctx.n(1200, 100000))
+
+    # coverage-guided search (atheris/libFuzzer) over the same structured input space; an additional search,
+    # the verdict never depends on it being available
+    from .. import fuzzrun
+    if not ctx.quick or ctx.shard < 2:
+        fuzzrun.run_atheris(ctx, "c09", 15000 if ctx.quick else 300000, check_case)
